@@ -18,9 +18,35 @@ import tempfile
 from .simfs import SimFS, SIM_ROOT
 from . import lib
 
-SIM_BACKENDS = ['simstream', 'simpath', 'bytesio']
+SIM_BACKENDS = ['simstream', 'simpath', 'bytesio', 'oldproto']
 REAL_BACKENDS = ['realpath', 'realfile', 'rawfile', 'gzipfile']
 ALL_BACKENDS = SIM_BACKENDS + REAL_BACKENDS
+
+
+class OldProtocolFile(object):
+    """A file-like object of the old school (SFTP clients, chunk readers, hand-written proxies): it reads, tells and seeks,
+    but `seek()` returns nothing - the position is what `tell()` says."""
+    def __init__(self, data):
+        self._f = io.BytesIO(data)
+
+    def read(self, n=-1):
+        return self._f.read(n)
+
+    def readinto(self, b):
+        return self._f.readinto(b)
+
+    def tell(self):
+        return self._f.tell()
+
+    def seek(self, pos, whence=0):
+        self._f.seek(pos, whence)
+
+    def close(self):
+        self._f.close()
+
+    @property
+    def closed(self):
+        return self._f.closed
 
 
 class Store(object):
@@ -70,6 +96,8 @@ class Store(object):
             return pathlib.Path(SIM_ROOT + name) if as_pathlib else SIM_ROOT + name
         if backend == 'bytesio':
             return io.BytesIO(self.fs.get(name))
+        if backend == 'oldproto':
+            return OldProtocolFile(self.fs.get(name))
         path = os.path.join(self.realdir(), name)
         if not os.path.exists(path):
             with open(path, 'wb') as f:
